@@ -123,7 +123,14 @@ class GeckoSnapshot:
         )
 
     def _re_data_segment(self, groups):
-        data = groups[0].replace("'", "\\x27")
+        # Escape the quotes that repr() left bare (a bytes repr in double quotes);
+        # a quote that repr() already escaped is left as it is
+        data = re.sub(
+            r"\\.|'",
+            lambda m: "\\x27" if m.group(0) == "'" else m.group(0),
+            groups[0],
+            flags=re.DOTALL,
+        )
         bytes_ = ast.literal_eval(f"b'{data}'")
         self._status_block_handler.handle(bytes_, None)
         self._status_block_segments.append(self._status_block_handler.data)
